@@ -106,7 +106,7 @@ func harnessFor(fn string) (file, pkgDir string) {
 }
 
 func writeReplay(dir, prop string, r *funcResult, o *Obligation) replayResult {
-	doc := replayDoc{Property: prop, Obligation: o.Name, Function: shortFunc(o.Func), Clause: o.Src,
+	doc := replayDoc{Property: prop, Obligation: o.Name, Function: shortFunc(o.Func), Clause: o.src(),
 		At: fmt.Sprintf("%s:%d", o.Pos.Filename, o.Pos.Line), SolverResult: o.Result, Backend: o.Backend, Params: decodeParams(o)}
 	out := o.Output
 	if len(out) > 6000 {
